@@ -366,5 +366,3 @@ Proof.
   - reflexivity.
 Qed.
 
-Print Assumptions bridge_valid.
-Print Assumptions bridge_raw.
